@@ -10,7 +10,7 @@ echo "== $D"
 if ! git -C $WT apply $D/patch.diff; then echo "PATCH DOES NOT APPLY"; exit 3; fi
 ( cd $WT && PYTHONPATH=$WT /venv/bin/python $D/demo.py >/tmp/demo_patched.out 2>&1 ); echo "demo patched exit=$?"
 if [ "${SKIP_TESTS:-0}" != 1 ]; then
-( cd $WT && PYTHONPATH=$WT /venv/bin/python -m pytest -q -p no:cacheprovider --timeout=900 -q fiddle --deselect fiddle/_src/codegen/auto_config/ir_to_cst_test.py::IrToCstTest::test_code_for_expr_jax_partition_spec -n 8 2>&1 | grep -E "passed|failed|error" | tail -1 )
+( cd $WT && PYTHONPATH=$WT /venv/bin/python -m pytest -q -p no:cacheprovider --timeout=900 fiddle --deselect fiddle/_src/codegen/auto_config/ir_to_cst_test.py::IrToCstTest::test_code_for_expr_jax_partition_spec -n 8 2>&1 | grep -E "passed|failed|error" | tail -1 )
 fi
 git -C $WT checkout -q -- .
 if [ $# -gt 0 ]; then
